@@ -8,7 +8,7 @@ Open Scope Z_scope.
 Theorem sync_creates_none_while_pg_pending : forall w u F w' e wr,
   sync_job w u F = (w', e, wr) -> pg_admitted (v_pg w) = false -> w_pods w' = w_pods w.
 Proof.
-  intros w u F w' e wr H Hpg. unfold sync_job in H.
+  intros w u F w' e wr H Hpg. unfold sync_job, sync_job_gen in H.
   destruct (phase_beq (st_phase (v_st w)) PhNone); cbn [andb] in H.
   - destruct (fails_status F 0); [inversion H; reflexivity|].
     rewrite pj7 in H. cbn [write v_pg] in H. rewrite Hpg in H. cbn [negb] in H.
@@ -203,7 +203,7 @@ Lemma sync_job_pods : forall w u F w' e wr,
   w_pods w' = a_pods (sync_pods (v_spec w) (v_pods w) (w_pods w) F) /\
   (F = [] -> e = a_err (sync_pods (v_spec w) (v_pods w) (w_pods w) [])).
 Proof.
-  intros w u F w' e wr H Hpg Hph. unfold sync_job in H.
+  intros w u F w' e wr H Hpg Hph. unfold sync_job, sync_job_gen in H.
   destruct (phase_beq (st_phase (v_st w)) PhNone) eqn:Ei.
   { apply phase_beq_true in Ei. contradiction. }
   cbn [andb] in H. rewrite pj7, Hpg in H. cbn [negb] in H. rewrite pj6, pj5 in H.
